@@ -167,6 +167,25 @@ class C09(Prop):
         n = 6000 if tier == "thorough" else 1000
         yield "random-environment-one-child-per-case", [join("c09", rng.choice(["Auto"] * 5 + GLOBALS), rng.choice("01"), random_env(rng)) for _ in range(n)]
         yield "global-write-then-read", [join("c09g", x) for a in GLOBALS for b in GLOBALS for x in (a, b)]
+        # the five macros on the real streams, stdout and stderr EACH a terminal (a pty of its own) or a pipe: the stream
+        # the macro writes to decides (print / println: stdout; eprint / eprintln / panic: stderr), not the other one
+        payloads = ["a\x1b[1mb\x1b[0mc", "\x1b[38;5;9mred\x1b[39m", "plain", "x\x1b]0;t\x07y"]
+        envs = [[], [("TERM", "xterm-256color")], [("TERM", "dumb")], [("NO_COLOR", "1"), ("TERM", "xterm")], [("CLICOLOR_FORCE", "1")],
+                [("CLICOLOR", "1")], [("CI", "true")], [("CLICOLOR", "0"), ("TERM", "xterm")]]
+        lines = []
+        k = 0
+        for mac in ("print", "println", "eprint", "eprintln", "panic"):
+            for ot in "01":
+                for et in "01":
+                    for env in envs:
+                        g = "Auto" if k % 5 else rng.choice(GLOBALS)
+                        lines.append(join("c09m", mac, ot, et, hx(payloads[k % len(payloads)]), g, binds(env)))
+                        k += 1
+        if tier == "thorough":
+            for _ in range(600):
+                lines.append(join("c09m", rng.choice(["print", "println", "eprint", "eprintln", "panic"]), rng.choice("01"), rng.choice("01"),
+                                  hx(rng.choice(payloads)), rng.choice(["Auto"] * 5 + GLOBALS), random_env(rng)))
+        yield "macros-each-stream-of-its-own-kind", lines
 
     def nontrivial(self, line, impl):
         f = line.split(" ")
@@ -174,6 +193,8 @@ class C09(Prop):
             return f[1] == "Auto"
         if f[0] == "c09s":
             return f[3] == "Auto"
+        if f[0] == "c09m":
+            return f[5] == "Auto" and f[2] != f[3]
         if f[0] == "c09p":
             return impl not in ("0", "none")
         if f[0] == "c09f":
